@@ -34,10 +34,17 @@ def write_json(path, obj):
     os.replace(tmp, path)
 
 
+def _dir(name):
+    """evidence/ and replays/ live in /verif; scratch runs against seeded copies redirect them"""
+    d = os.environ.get("VERIF_OUT_DIR")
+    d = os.path.join(d, name) if d else os.path.join(ROOT, name)
+    os.makedirs(d, exist_ok=True)
+    return d
+
+
 def write_replay(prop, core, example):
-    os.makedirs(os.path.join(ROOT, "replays"), exist_ok=True)
     h = hashlib.sha1((prop + "|" + core).encode()).hexdigest()[:12]
-    path = os.path.join(ROOT, "replays", f"{prop}-{h}.json")
+    path = os.path.join(_dir("replays"), f"{prop}-{h}.json")
     write_json(path, {"property": prop, "core": core, "case": example["case"], "detail": example["detail"]})
     return path
 
@@ -136,8 +143,7 @@ def main(argv=None):
             "wall_s": round(wall, 2),
             "violations": sum(ent["count"] for _, ent in unknown),
         }
-        os.makedirs(os.path.join(ROOT, "evidence"), exist_ok=True)
-        write_json(os.path.join(ROOT, "evidence", f"{prop}.json"), ev)
+        write_json(os.path.join(_dir("evidence"), f"{prop}.json"), ev)
         for ln in lines:
             print(ln)
         for ln in out[:60]:
